@@ -193,6 +193,7 @@ func runCheck(id, tier string, seed int) int {
 		fmt.Printf("VIOLATION property=%s replay=%s no-failing-input-found\n", id, replayPath(id, "contracts"))
 		return 1
 	}
+	applyTemplates(P, C)
 	timeout := 10
 	if tier == "thorough" {
 		timeout = 60
